@@ -98,7 +98,10 @@ pub struct RunOut {
 
 // Runs the real driver over pipes.  `expect_len`: the number of output bytes the model predicts (the run waits for
 // that many, at most `patience`).
-pub fn run_real(layout: &Layout, segments: &[Segment], expect_len: usize, sentinel: KeyCode, patience: Duration, has_tablet: bool) -> RunOut {
+// `marker`: None = synchronised run (the harness waits at every change of device, so the read order is the write order);
+// Some(key) = CONCURRENT run: no waiting between the devices; when everything has been read a press of the foreign key
+// `key` is written, and the run is complete when its report is the tail of the output.
+pub fn run_real(layout: &Layout, segments: &[Segment], expect_len: usize, sentinel: KeyCode, patience: Duration, has_tablet: bool, marker: Option<KeyCode>) -> RunOut {
   let (kr, kw) = pipe(true);
   let (tr, tw) = pipe(true);
   let (or, ow) = pipe(true);
@@ -122,6 +125,7 @@ pub fn run_real(layout: &Layout, segments: &[Segment], expect_len: usize, sentin
       write_all(fd_w, w);
       read_some(or, &mut out);
     }
+    if marker.is_some() { continue; }
     // synchronisation point: everything written to this device has been read
     loop {
       read_some(or, &mut out);
@@ -131,7 +135,23 @@ pub fn run_real(layout: &Layout, segments: &[Segment], expect_len: usize, sentin
       std::thread::yield_now();
     }
   }
-  if stuck == 0 {
+  if let Some(mk) = marker {
+    // everything written so far must get read, on both devices
+    loop {
+      read_some(or, &mut out);
+      let n = unread(kr) + unread(tr);
+      if n == 0 { break; }
+      if t0.elapsed() > patience { stuck = n; break; }
+      std::thread::yield_now();
+    }
+    if stuck == 0 {
+      let mut r = Rng::new(11);
+      write_all(kw, &record(&mut r, 1, mk as u16, 1));
+      let tail = marker_report(mk);
+      while !out.ends_with(&tail) && t0.elapsed() < patience { read_some(or, &mut out); std::thread::yield_now(); }
+    }
+  }
+  else if stuck == 0 {
     while out.len() < expect_len && t0.elapsed() < patience { read_some(or, &mut out); std::thread::yield_now(); }
   }
   let complete_at = out.len();
@@ -150,6 +170,15 @@ pub fn run_real(layout: &Layout, segments: &[Segment], expect_len: usize, sentin
   }
   unsafe { libc::close(kw); libc::close(tw); }
   RunOut { out, stuck_unread: stuck, status, late_extra }
+}
+
+pub fn marker_report(k: KeyCode) -> Vec<u8> {
+  let mut v = vec![0u8; 16];
+  v.extend_from_slice(&1u16.to_le_bytes());
+  v.extend_from_slice(&(k as u16).to_le_bytes());
+  v.extend_from_slice(&1i32.to_le_bytes());
+  v.extend_from_slice(&[0u8; 24]);
+  v
 }
 
 // the reference at the event level: the real Mapper stepped once per event of the read log
@@ -265,10 +294,10 @@ fn no_timer(layout: &Layout) -> Layout {
   l
 }
 
-fn sentinel_for(alphabet: &[KeyCode], layout: &Layout) -> KeyCode {
+fn sentinel_for(alphabet: &[KeyCode], layout: &Layout, not: Option<KeyCode>) -> KeyCode {
   let used = crate::h_layouts::layout_keys(layout);
   for k in [KeyCode::F13, KeyCode::F14, KeyCode::F15, KeyCode::F16, KeyCode::F17, KeyCode::KPASTERISK, KeyCode::SCROLLLOCK].iter() {
-    if !used.contains(k) && !alphabet.contains(k) { return *k; }
+    if !used.contains(k) && !alphabet.contains(k) && Some(*k) != not { return *k; }
   }
   KeyCode::F18
 }
@@ -319,6 +348,7 @@ pub fn run(opts: &Opts) -> i32 {
   let mut distinct: std::collections::HashSet<String> = std::collections::HashSet::new();
   let mut samples: Vec<String> = Vec::new();
   let mut tdec_checked = 0u64;
+  let mut concurrent_runs = 0u64;
 
   // the tablet-switch reader alone, record by record: every (type, code, value) around the accepted ones
   {
@@ -348,16 +378,57 @@ pub fn run(opts: &Opts) -> i32 {
     let layout_txt = fmt::layout(&layout);
     let reply = lean.ask(&format!("L {}", layout_txt));
     if reply != "wf" { continue; }
-    let sentinel = sentinel_for(alphabet, &layout);
+    let sentinel = sentinel_for(alphabet, &layout, None);
+    let marker = sentinel_for(alphabet, &layout, Some(sentinel));
     for _ in 0..per_layout {
       let tablet = rng.chance(2, 5);
       let case = gen_case(&mut rng, alphabet, tablet, thorough);
+      // (the acceptor explores the interleavings of the two per-device logs depth-first: short logs only)
+      let n_tab = case.log.iter().filter(|i| matches!(i, LogItem::Tab(_))).count();
+      if tablet && marker != sentinel && case.log.len() <= 16 && n_tab <= 4 && rng.chance(2, 3) {
+        // CONCURRENT run: both devices become readable while the loop is busy; any read order across the devices is
+        // legitimate, the output must be the model's output for SOME interleaving of the two per-device logs
+        let r = run_real(&layout, &case.segments, 0, sentinel, if violations > 0 { std::cmp::min(patience, Duration::from_millis(500)) } else { patience }, true, Some(marker));
+        cases += 1; concurrent_runs += 1; tablet_runs += 1;
+        records += case.segments.iter().map(|s| s.writes.iter().map(|w| w.len() / 24).sum::<usize>()).sum::<usize>() as u64;
+        junk += case.junk as u64; writes += case.n_writes as u64; out_bytes += r.out.len() as u64;
+        tablet_events += case.log.iter().filter(|i| matches!(i, LogItem::Tab(_))).count() as u64;
+        let mut kb: Vec<u8> = Vec::new(); let mut tb: Vec<u8> = Vec::new();
+        for sg in &case.segments { for w in &sg.writes { if sg.dev == 'k' { kb.extend_from_slice(w); } else { tb.extend_from_slice(w); } } }
+        let mut r11 = Rng::new(11);
+        kb.extend_from_slice(&record(&mut r11, 1, marker as u16, 1));
+        let verdict: Option<Verdict> =
+          if r.status == "panic" { Some(Verdict { kind: "property", props: vec!["C14"], what: "the loop panicked".to_string() }) }
+          else if r.stuck_unread > 0 { Some(Verdict { kind: "property", props: vec!["C10"], what: format!("the loop stopped reading: {} bytes that had arrived (and were notified) stayed unread while it waited", r.stuck_unread) }) }
+          else {
+            let reply = lean.ask(&format!("E2EANY {} {} {}", hex(&kb), hex(&tb), hex(&r.out)));
+            if reply == "ok" {
+              if r.status == "no-return" || r.status == "ok" { Some(Verdict { kind: "property", props: vec!["C20"], what: format!("after the write to the virtual keyboard failed (EPIPE) the loop did not return the error: {}", r.status) }) } else { None }
+            }
+            else if parse_batches(&r.out).is_none() { Some(Verdict { kind: "property", props: vec!["C18"], what: "the bytes written are not a sequence of well-formed key reports".to_string() }) }
+            else { Some(Verdict { kind: "property", props: vec!["C12"], what: format!("keyboard and tablet-switch records readable at the same time: the bytes written are not the outputs for ANY order of reading the two devices ({}); wrote {:?}", reply, parse_batches(&r.out).unwrap().iter().map(|x| fmt::events(x)).collect::<Vec<_>>()) }) }
+          };
+        if let Some(v) = verdict {
+          if v.kind == "property" { violations += 1; } else { divergences += 1; }
+          let same = findings.iter().filter(|f| f["kind"] == v.kind && f["properties"] == serde_json::json!(v.props) && f["concurrent"] == true).count();
+          if same < 3 {
+            findings.push(serde_json::json!({
+              "suite": "e2e", "kind": v.kind, "properties": v.props, "what": v.what, "layout": layout_txt, "layout_json": crate::h_mapper::layout_to_json(&layout),
+              "has_tablet": true, "concurrent": true, "sentinel": fmt::code(&sentinel), "marker": fmt::code(&marker),
+              "segments": case.segments.iter().map(|s| serde_json::json!({"dev": s.dev.to_string(), "writes": s.writes.iter().map(|w| hex(w)).collect::<Vec<_>>(), "pauses_us": s.pauses_us})).collect::<Vec<_>>(),
+              "keyboard_bytes": hex(&kb), "tablet_bytes": hex(&tb), "implementation_bytes": hex(&r.out), "closing_status": r.status, "stuck_unread_bytes": r.stuck_unread
+            }));
+          }
+          if findings.iter().filter(|f| f["kind"] == "property").count() >= 6 || findings.len() > 40 { break 'outer; }
+        }
+        continue;
+      }
       let arg = chunks_arg(&case.segments);
       let reply = lean.ask(&format!("E2E {}", arg));
       let parts: Vec<&str> = reply.split(' ').collect();
       if parts.len() != 3 { divergences += 1; findings.push(serde_json::json!({"suite":"e2e","kind":"divergence","properties":[],"what":format!("model reply: {}", reply),"layout":layout_txt})); continue; }
       let expect_len = if parts[0] == "-" { 0 } else { parts[0].len() / 2 };
-      let r = run_real(&layout, &case.segments, expect_len, sentinel, if violations > 0 { std::cmp::min(patience, Duration::from_millis(500)) } else { patience }, tablet);
+      let r = run_real(&layout, &case.segments, expect_len, sentinel, if violations > 0 { std::cmp::min(patience, Duration::from_millis(500)) } else { patience }, tablet, None);
       cases += 1;
       records += case.segments.iter().map(|s| s.writes.iter().map(|w| w.len() / 24).sum::<usize>()).sum::<usize>() as u64;
       junk += case.junk as u64;
@@ -387,7 +458,7 @@ pub fn run(opts: &Opts) -> i32 {
           let kreply = lean.ask(&format!("E2E {}", chunks_arg(&ksegs)));
           let kp: Vec<&str> = kreply.split(' ').collect();
           if kp.len() == 3 {
-            let kr = run_real(&layout, &ksegs, if kp[0] == "-" { 0 } else { kp[0].len() / 2 }, sentinel, patience, false);
+            let kr = run_real(&layout, &ksegs, if kp[0] == "-" { 0 } else { kp[0].len() / 2 }, sentinel, patience, false, None);
             if judge(&layout, &klog, false, kp[0], &kr).is_some() { v.props = vec!["C10"]; }
           }
         }
@@ -418,9 +489,9 @@ pub fn run(opts: &Opts) -> i32 {
   let stats = serde_json::json!({
     "suite": "e2e", "seed": seed, "tier": if thorough { "thorough" } else { "quick" },
     "cases": cases, "distinct_nontrivial": distinct.len(),
-    "rule": "each case = one run of the REAL driver (mio/epoll poll, DevInputReader, TabletModeSwitchReader, DevInputWriter) around the real loop in its own thread over pipes: input_event records (key events of a semi-well-formed history over the layout's alphabet, surrounded by MSC_SCAN / SYN_REPORT / autorepeat / unknown-code / LED records; tablet-switch On/Off and foreign switch records in 2 of 5 runs) written in random chunks of whole records at random moments; the bytes read from the uinput pipe are compared with the model's wireOut; the run is closed by an EPIPE on the uinput pipe which the loop must return. non-trivial and distinct = distinct (layout, read log) with at least two sends",
+    "rule": "each case = one run of the REAL driver (mio/epoll poll, DevInputReader, TabletModeSwitchReader, DevInputWriter) around the real loop in its own thread over pipes: input_event records (key events of a semi-well-formed history over the layout's alphabet, surrounded by MSC_SCAN / SYN_REPORT / autorepeat / unknown-code / LED records; tablet-switch On/Off and foreign switch records in 2 of 5 runs) written in random chunks of whole records at random moments; half of the tablet runs are CONCURRENT (no waiting between the two devices: both become readable while the loop is busy, the output must be the model's for some interleaving of the two per-device logs, request E2EANY), the others synchronised at every change of device (the read order is the write order); the bytes read from the uinput pipe are compared with the model's wireOut; the run is closed by an EPIPE on the uinput pipe which the loop must return. non-trivial and distinct = distinct (layout, read log) with at least two sends",
     "records_written": records, "junk_records": junk, "writes": writes, "runs_with_two_or_more_writes": multi, "runs_with_a_chunk_over_8_records": big, "largest_chunk_records": max_chunk,
-    "runs_with_tablet_switch": tablet_runs, "tablet_events": tablet_events, "output_bytes": out_bytes, "sends": sends, "tablet_records_compared_alone": tdec_checked,
+    "runs_with_tablet_switch": tablet_runs, "concurrent_two_device_runs": concurrent_runs, "tablet_events": tablet_events, "output_bytes": out_bytes, "sends": sends, "tablet_records_compared_alone": tdec_checked,
     "divergences": divergences, "monitor_violations": violations, "samples": samples, "findings": findings.len()
   });
   if let Some(p) = opts.get("stats") { std::fs::write(p, serde_json::to_string_pretty(&stats).unwrap()).unwrap(); }
@@ -439,6 +510,21 @@ pub fn replay(opts: &Opts) -> i32 {
     writes: s["writes"].as_array().unwrap().iter().map(|w| unhex(w.as_str().unwrap())).collect(),
     pauses_us: s["pauses_us"].as_array().unwrap().iter().map(|p| p.as_u64().unwrap_or(0)).collect()
   }).collect();
+  if f["concurrent"] == true {
+    let sentinel = fmt::key_from_code(f["sentinel"].as_i64().unwrap_or(183)).unwrap_or(KeyCode::F13);
+    let marker = fmt::key_from_code(f["marker"].as_i64().unwrap_or(184)).unwrap_or(KeyCode::F14);
+    let mut lean = Lean::start();
+    let _ = lean.ask(&format!("L {}", fmt::layout(&layout)));
+    let mut bad = 0;
+    for attempt in 0..8 {
+      let r = run_real(&layout, &segments, 0, sentinel, Duration::from_millis(3000), true, Some(marker));
+      let reply = if r.stuck_unread > 0 { format!("stuck with {} bytes unread", r.stuck_unread) } else { lean.ask(&format!("E2EANY {} {} {}", f["keyboard_bytes"].as_str().unwrap_or("-"), f["tablet_bytes"].as_str().unwrap_or("-"), hex(&r.out))) };
+      if reply != "ok" { bad += 1; }
+      println!("attempt {}: {} (closing status {})", attempt, reply, r.status);
+    }
+    lean.finish();
+    return if bad > 0 { println!("REPLAY: fails ({} of 8 attempts)", bad); 1 } else { println!("REPLAY: passes (the run is timing dependent)"); 0 };
+  }
   let has_tablet = f["has_tablet"].as_bool().unwrap_or(false);
   let sentinel = fmt::key_from_code(f["sentinel"].as_i64().unwrap_or(183)).unwrap_or(KeyCode::F13);
   let log: Vec<LogItem> = f["read_log"].as_str().unwrap_or("-").split(',').filter(|s| *s != "-" && !s.is_empty()).map(|s| match s { "on" => LogItem::Tab(true), "off" => LogItem::Tab(false), e => LogItem::Key(fmt::parse_event(e).expect("event")) }).collect();
@@ -450,7 +536,7 @@ pub fn replay(opts: &Opts) -> i32 {
   if parts.len() != 3 { println!("model reply: {}", reply); return 2; }
   let mut bad = 0;
   for attempt in 0..5 {
-    let r = run_real(&layout, &segments, if parts[0] == "-" { 0 } else { parts[0].len() / 2 }, sentinel, Duration::from_millis(3000), has_tablet);
+    let r = run_real(&layout, &segments, if parts[0] == "-" { 0 } else { parts[0].len() / 2 }, sentinel, Duration::from_millis(3000), has_tablet, None);
     match judge(&layout, &log, has_tablet, parts[0], &r) {
       Some(v) => { bad += 1; println!("attempt {}: {} {:?}: {}", attempt, v.kind, v.props, v.what); println!("  model bytes          {}", parts[0]); println!("  implementation bytes {}", hex(&r.out)); },
       None => println!("attempt {}: output as predicted, closing status {}", attempt, r.status)
